@@ -20,7 +20,7 @@ def tier_params(tier):
 
 
 def prepare(repo):
-    build.setup()
+    build.setup(repo)
 
 
 REJECTS = [
